@@ -22,12 +22,21 @@ import (
 	"verif/symgo"
 )
 
-const (
-	RepoDir    = "/repo"
-	VerifDir   = "/verif"
-	HarnessDir = "/verif/harness"
-	ShimDir    = "/verif/engine/shim"
+const RepoDir = "/repo"
+
+// VerifDir is /verif unless $VERIF_DIR points to a snapshot of it (background runs).
+var (
+	VerifDir   = envOr("VERIF_DIR", "/verif")
+	HarnessDir = VerifDir + "/harness"
+	ShimDir    = VerifDir + "/engine/shim"
 )
+
+func envOr(k, d string) string {
+	if v := os.Getenv(k); v != "" {
+		return v
+	}
+	return d
+}
 
 // Job is one harness exploration.
 type Job struct {
